@@ -209,11 +209,30 @@ def check(ctx):
         hpe = ctx.func(REL, "HttpStream.handle_protocol_error")
         assign = [s for s in hpe.body if isinstance(s, ast.Assign) and attr_chain(s.targets[0]) == "need_error_hook"]
         ctx.require(len(assign) == 1, "handle_protocol_error no longer computes need_error_hook in one assignment")
+        import copy
+
+        def inline_locals(e, depth=0):
+            """the predicate with single-assignment temporaries of the function replaced by their defining expressions"""
+            if depth > 6:
+                return e
+
+            class T(ast.NodeTransformer):
+                def visit_Name(self, n):
+                    if isinstance(n.ctx, ast.Load):
+                        defs = [a for a in ast.walk(hpe) if isinstance(a, (ast.Assign, ast.AnnAssign)) and a.value is not None
+                                and any(isinstance(t, ast.Name) and t.id == n.id for t in (a.targets if isinstance(a, ast.Assign) else [a.target]))]
+                        if len(defs) == 1:
+                            return inline_locals(copy.deepcopy(defs[0].value), depth + 1)
+                    return n
+
+            return ast.fix_missing_locations(T().visit(copy.deepcopy(e)))
+
+        inlined = inline_locals(assign[0].value)
         bad = 0
         for cs in STATE_NAMES:
             for ss in STATE_NAMES:
                 st = State((), {"self.client_state": R("self." + cs), "self.server_state": R("self." + ss)})
-                t = spec.truth(assign[0].value, st, 0)
+                t = spec.truth(inlined, st, 0)
                 ctx.cells += 1
                 ctx.require(t is not None, f"need_error_hook not decidable for ({cs},{ss}): {ast.unparse(assign[0].value)}")
                 must_be_false = cs == "state_errored" or ss in ("state_done", "state_errored")
@@ -227,26 +246,39 @@ def check(ctx):
 
     ctx.guard(predicate_table)
 
-    # R03.5: close handling yields protocol errors
-    def yields_receive(fn, kinds):
-        out = []
-        for y in yields_in(fn):
-            if yielded_class(y) == "ReceiveHttp" and y.value.args:
-                a = y.value.args[0]
-                if isinstance(a, ast.Call) and last_attr(a.func) in kinds:
-                    out.append(last_attr(a.func))
-                elif isinstance(a, ast.Name):
-                    out.append("name:" + a.id)
-        return out
+    # R03.5: close handling yields protocol errors (path facts: every path of the close branch with a stream in flight reports one)
+    from ..paths import GenericSpec
+    from ..paths import traces_of
 
-    wait = ctx.func(H1, "Http1Connection.wait")
-    closed_branch = [n for n in walk_in_order(wait) if isinstance(n, ast.If) and "ConnectionClosed" in ast.unparse(n.test)]
-    ok = any("ReceiveProtocolError" in ast.unparse(b) and "ReceiveHttp" in ast.unparse(b) for b in closed_branch)
-    ctx.check(ok, "R03.5", (H1, "Http1Connection.wait", wait), "ConnectionClosed branch", "client close while waiting produces no RequestProtocolError", desc="Http1Server.wait")
-    rh = ctx.func(H1, "Http1Client.read_headers")
-    closed_branch = [n for n in walk_in_order(rh) if isinstance(n, ast.If) and "ConnectionClosed" in ast.unparse(n.test)]
-    ok = any("ResponseProtocolError" in ast.unparse(b) and "ReceiveHttp" in ast.unparse(b) for b in closed_branch)
-    ctx.check(ok, "R03.5", (H1, "Http1Client.read_headers", rh), "ConnectionClosed branch", "server close with a request in flight produces no ResponseProtocolError", desc="Http1Client.read_headers")
+    class CloseSpec(GenericSpec):
+        def events(self, node, st):
+            out = []
+            for y in yields_in(node) if not isinstance(node, (ast.If, ast.While, ast.For, ast.Try, ast.With, ast.Match, ast.FunctionDef)) else []:
+                if yielded_class(y) == "ReceiveHttp" and y.value.args:
+                    a = y.value.args[0]
+                    kind = last_attr(a.func) if isinstance(a, ast.Call) else None
+                    if kind is None and isinstance(a, ast.Name):
+                        # a local bound to the error object in every definition of that local
+                        defs = [d.value for d in ast.walk(self.fn) if isinstance(d, ast.Assign) and any(isinstance(t, ast.Name) and t.id == a.id for t in d.targets)]
+                        kinds = {last_attr(d.func) if isinstance(d, ast.Call) else None for d in defs}
+                        kind = kinds.pop() if len(kinds) == 1 else None
+                    out.append(("recv", kind or "?"))
+            return out
+
+    def close_paths(rel, qual, kinds, what, extra_true=()):
+        fn = ctx.func(rel, qual)
+        spec = CloseSpec(keep=lambda e: e[0] in ("recv", "cond"), record_conds=True)
+        spec.fn = fn
+        res, _ = traces_of(fn, spec)
+        ctx.paths += len(res)
+        closed = [t for t, how, st in res if how == "return" and any(e[0] == "cond" and "ConnectionClosed" in e[1] and e[1].startswith("isinstance(") and e[2] for e in t)
+                  and all(any(e[0] == "cond" and e[1] == c and e[2] for e in t) for c in extra_true)]
+        ctx.require(closed, f"{qual}: no path for ConnectionClosed" + (f" with {extra_true}" if extra_true else "") + " found (anchor changed)")
+        bad = [t for t in closed if not any(e[0] == "recv" and e[1] in kinds for e in t)]
+        ctx.check(not bad, "R03.5", (rel, qual, fn), "ConnectionClosed branch", f"{what} ({len(bad)} of {len(closed)} close paths report nothing to the stream)", desc=f"{qual}: {len(closed)} close paths yield a protocol error")
+
+    close_paths(H1, "Http1Connection.wait", ("ReceiveProtocolError", "RequestProtocolError", "ResponseProtocolError"), "client close while waiting produces no RequestProtocolError")
+    close_paths(H1, "Http1Client.read_headers", ("ResponseProtocolError", "ReceiveProtocolError"), "server close with a request in flight produces no ResponseProtocolError", extra_true=("self.stream_id",))
     cc = ctx.func(H2, "Http2Connection.close_connection")
     loops = [n for n in walk_in_order(cc) if isinstance(n, ast.For) and "self.streams" in ast.unparse(n.iter)]
     ok = any("ReceiveHttp" in ast.unparse(l) and "ProtocolError" in ast.unparse(l) for l in loops)
